@@ -100,10 +100,31 @@ def analyse(unit, path, index, vr):
         if d['level'] != 'error': continue
         msg = d['message']
         if msg.startswith('aborting due to'): continue
+        def _callsite(sp):
+            # a span inside a macro expansion (panic!, assert!) points into the macro's definition: follow the
+            # expansion chain to the invocation in our file
+            seen = 0
+            while sp is not None and not sp['file_name'].endswith(base) and seen < 8:
+                ex = sp.get('expansion')
+                sp = ex.get('span') if ex else None
+                seen += 1
+            return sp
+        d['spans'] = [(_callsite(sp) or sp) for sp in d['spans']]
         spans = [sp for sp in d['spans'] if sp['file_name'].endswith(base)]
         prim = [sp for sp in d['spans'] if sp.get('is_primary')]
         pline = prim[0]['line_start'] if prim and prim[0]['file_name'].endswith(base) else (spans[0]['line_start'] if spans else None)
         in_fn = fn_of_line(index, pline) if pline else None
+        if in_fn is None:
+            for sp in spans:
+                g = fn_of_line(index, sp['line_start'])
+                if g: in_fn = g; pline = sp['line_start']; break
+        modes = {f['name']: f.get('mode') for f in index['fns']}
+        if in_fn and modes.get(in_fn) == 'no-contract' and clause_of_line(index, pline) is None and not any(
+                clause_of_line(index, sp['line_start']) for sp in spans):
+            # a function of an extracted impl that has no contract (e.g. a helper introduced by a refactoring): what
+            # Verus cannot show about it on its own is not an obligation of any property here
+            res.setdefault('uncontracted_fn_errors', []).append('%s: %s' % (in_fn, d['message'][:120]))
+            continue
         in_thm = None
         if pline and in_fn is None:
             # inside theorems / speclib?
